@@ -385,3 +385,123 @@ func (r *Run) c12RelaxFlag() {
 	}
 	r.Check(okRet, "relaxed-flag.returned", pos, "forwardStep returns the accumulated flag", "forwardStep does not return the accumulated relaxed flag")
 }
+
+// c12ZeroConst: v is the numeric constant 0 (of any numeric type).
+func c12ZeroConst(v ssa.Value) bool {
+	c, ok := v.(*ssa.Const)
+	if !ok || c.Value == nil {
+		return false
+	}
+	switch c.Value.Kind() {
+	case constant.Int, constant.Float:
+		return constant.Sign(c.Value) == 0
+	}
+	return false
+}
+
+// c12RecursiveReset decides that the accumulator the recursive activation sums
+// into starts at zero for every neuron it evaluates: either recursiveActivateNode
+// stores 0 into processed[node] (the same index value the sums use) on every
+// path to the summation loop and outside of it, or RecursiveSteps clears
+// processed[i] for every i in 0..totalNeuronCount-1 before its first call of
+// recursiveActivateNode (each neuron is summed at most once per RecursiveSteps,
+// the activated flags see to that). Without either, a second evaluation on the
+// same solver adds the new weighted sum on top of the previous one.
+func (r *Run) c12RecursiveReset(ra *ssa.Function, sums []*ssa.Store) {
+	p := r.P
+	const label = "fast.recursive.reset"
+	if len(sums) == 0 {
+		r.Bad(label, p.Pos(ra.Pos()), "no summation site of the recursive activation was recognised, so the reset of its accumulator cannot be placed")
+		return
+	}
+	isAcc := func(tm *Termer, st *ssa.Store) (*ssa.IndexAddr, bool) {
+		ia, ok := st.Addr.(*ssa.IndexAddr)
+		if !ok || tm.Of(ia.X).String() != "recv.neuronSignalsBeingProcessed" {
+			return nil, false
+		}
+		return ia, true
+	}
+	// (a) local reset
+	tm := NewTermer(ra)
+	loops := Loops(ra)
+	local := false
+	Instrs(ra, func(b *ssa.BasicBlock, _ int, in ssa.Instruction) {
+		st, ok := in.(*ssa.Store)
+		if !ok || !c12ZeroConst(st.Val) {
+			return
+		}
+		ia, ok := isAcc(tm, st)
+		if !ok {
+			return
+		}
+		all := true
+		for _, s := range sums {
+			sia := s.Addr.(*ssa.IndexAddr)
+			l := InnermostLoop(loops, s.Block())
+			if sia.Index != ia.Index || b == s.Block() || !b.Dominates(s.Block()) || (l != nil && l.Blocks[b]) {
+				all = false
+			}
+		}
+		if all {
+			local = true
+		}
+	})
+	if local {
+		r.OK(label, p.Pos(ra.Pos()), "processed[node] = 0 before the incoming signals of node are summed")
+		return
+	}
+	// (b) global reset in RecursiveSteps before the first recursive call
+	rs := p.Func(PkgN, "FastModularNetworkSolver.RecursiveSteps")
+	global := false
+	if rs != nil {
+		tg := NewTermer(rs)
+		gl := Loops(rs)
+		calls := CallsTo(rs, ra)
+		Instrs(rs, func(b *ssa.BasicBlock, _ int, in ssa.Instruction) {
+			st, ok := in.(*ssa.Store)
+			if !ok || !c12ZeroConst(st.Val) {
+				return
+			}
+			ia, ok := isAcc(tg, st)
+			if !ok {
+				return
+			}
+			l := InnermostLoop(gl, b)
+			if l == nil {
+				return
+			}
+			ctr, bound, ok := countedLoop(l)
+			if !ok || ia.Index != ssa.Value(ctr) || tg.Of(bound).String() != "recv.totalNeuronCount" {
+				return
+			}
+			// executed on every iteration, and the loop cannot be left except by exhaustion
+			for _, g := range Guards(b) {
+				if l.Blocks[g.At] && g.At != l.Header {
+					return
+				}
+			}
+			for x := range l.Blocks {
+				if x == l.Header {
+					continue
+				}
+				for _, s := range x.Succs {
+					if !l.Blocks[s] {
+						return
+					}
+				}
+			}
+			// the loop is complete before any recursive activation starts
+			okCalls := len(calls) > 0
+			for _, c := range calls {
+				if l.Blocks[c.Block()] || !l.Header.Dominates(c.Block()) {
+					okCalls = false
+				}
+			}
+			if okCalls {
+				global = true
+			}
+		})
+	}
+	r.Check(global, label, p.Pos(ra.Pos()), "RecursiveSteps clears processed[i] for every neuron before the recursion starts",
+		"the accumulator neuronSignalsBeingProcessed[node] is not set to 0 before recursiveActivateNode sums the incoming signals of node (neither there, on every path to the summation, nor for all neurons in RecursiveSteps): from the second evaluation on the same solver every neuron reached through the recursion adds its weighted sum to the stale sum of the previous evaluation")
+}
